@@ -115,7 +115,7 @@ def adopt(src, sid):
     print("adopted", dst)
 
 
-def rerun(ids, tier):
+def rerun(ids, tier, main_only=False):
     base = os.path.join(VERIF, "seeded")
     ids = ids or sorted(os.listdir(base))
     rows = []
@@ -125,6 +125,8 @@ def rerun(ids, tier):
             continue
         meta = json.load(open(os.path.join(src, "meta.json")))
         props = list(meta.get("checks_run", {}).keys()) or [meta["property"]]
+        if main_only:
+            props = [meta.get("breaks_property") or meta["property"]]
         # work on a temp copy so that verify.json does not land in /verif/seeded
         tmp = tempfile.mkdtemp(prefix="hv-seed-", dir="/tmp")
         try:
@@ -135,9 +137,9 @@ def rerun(ids, tier):
             show(res)
             rows.append(res)
             if "checks" in res:
-                meta["checks_run"] = {p: {"tier": tier, "caught": c["caught"],
-                                          "first_violation": (c["first"] or [None])[0]}
-                                      for p, c in res["checks"].items()}
+                meta.setdefault("checks_run", {}).update({p: {"tier": tier, "caught": c["caught"],
+                                                              "first_violation": (c["first"] or [None])[0]}
+                                                          for p, c in res["checks"].items()})
                 meta["confirmed"]["rerun_at_repo_head"] = res["repo_head"]
                 meta["confirmed"]["demo_clean_exit"] = res["demo_clean_exit"]
                 meta["confirmed"]["demo_patched_exit"] = res["demo_patched_exit"]
@@ -155,6 +157,7 @@ def main():
     ap.add_argument("args", nargs="*")
     ap.add_argument("--tier", default="quick")
     ap.add_argument("--props", default="")
+    ap.add_argument("--main-only", action="store_true")
     a = ap.parse_args()
     props = [p for p in a.props.split(",") if p]
     if a.cmd == "verify":
@@ -163,7 +166,7 @@ def main():
     elif a.cmd == "adopt":
         adopt(a.args[0], a.args[1])
     else:
-        rows = rerun(a.args, a.tier)
+        rows = rerun(a.args, a.tier, a.main_only)
         missed = [r["dir"] for r in rows if "checks" in r and not any(c["caught"] for c in r["checks"].values())]
         print(f"{len(rows)} seeded changes; missed by every listed check: {missed}")
 
